@@ -252,3 +252,32 @@ Theorem c17_unjoined_pump_refuted : forall j : join_spec, join_wf j = false ->
     /\ r_prefix_ok (recognise (trace (run_j j (sched ++ more)))) = false.
 Proof. exact unjoined_pump_refutes. Qed.
 Print Assumptions c17_unjoined_pump_refuted.
+
+(* ---------------- the cancel channel as run_task subscribes to it today ----------------
+   OBSERVATION (replayed on the real code: corpus/C17/task_early_cancel.json; not a violation of the property,
+   which orders the cancel-request frame and the cancelled status when they exist): `run_sub` is `run` with
+   run_task's `cancel_tx.subscribe()` as its first statement — the value current at that moment counts as seen.
+   However many requests were acknowledged (202) before run_task started, and whatever happens afterwards short
+   of a NEW request, no cancel-request frame (hence no cancelled status) ever appears. *)
+Theorem c17_early_cancel_never_recorded : forall (n : nat) (more : list act),
+  (forall a, In a more -> a <> ACancel) ->
+  ~ In LCancelReq (trace (run_sub (repeat ACancel n ++ ASpawnFrame :: more))).
+Proof. exact early_cancel_never_recorded. Qed.
+Print Assumptions c17_early_cancel_never_recorded.
+
+Example c17_early_cancel_example :
+  trace (run_sub [ACancel; ASpawnFrame; AStartRunning; ATakeCancel; AChildExit; AWaitReturns true;
+                  APumpEof 0; APumpEof 1; AJoined; AEmitFinal]) = [LSpawned; LRunning; LStatus 2]
+  /\ trace (run_sub [ASpawnFrame; ACancel; AStartRunning; ATakeCancel; AChildExit; AKillWaitReturns true;
+                     APumpEof 0; APumpEof 1; AJoined; AEmitCancelled; AEmitFinal])
+     = [LSpawned; LRunning; LCancelReq; LCancelled; LStatus 3].
+Proof. exact early_cancel_example. Qed.
+
+(* the lifecycle theorem for this refinement as well (c17_lifecycle covers it and a run_task that would
+   notice the early request) *)
+Theorem c17_lifecycle_subscribed : forall sched : list act,
+  let s := run_sub sched in
+  let t := trace s in
+  r_prefix_ok (recognise t) = true /\ (s_main s = MEnd <-> r_complete (recognise t) = true).
+Proof. exact lifecycle_language_sub. Qed.
+Print Assumptions c17_lifecycle_subscribed.
